@@ -1,7 +1,7 @@
 ------------------------------ MODULE Equality ------------------------------
 (***************************************************************************)
 (* Equality of valida objects at term level (C14): conditions (leaf: exact *)
-(* class, callable name, arguments under python ==; combinations:          *)
+(* class, callable name, arguments under TYPED python ==; combinations:    *)
 (* commutative, not associative), parts (kind, all three conditions,       *)
 (* label), paths, rules (cast included), schemas - and the behaviour of a  *)
 (* term on a document, against which "equal implies identical behaviour"   *)
@@ -9,21 +9,38 @@
 (***************************************************************************)
 EXTENDS Schema
 
-RECURSIVE PyEqArg(_, _)
-\* python == on stored arguments (paths compare structurally)
-PyEqArg(a, b) == IF a.k \in {"dpath", "rdpath"} /\ b.k \in {"dpath", "rdpath"} THEN TRUE ELSE PyEq(a, b)
-KwEq(a, b) == /\ Len(a) = Len(b)
-              /\ \A i \in 1..Len(a) : \E j \in 1..Len(b) : a[i].nc = b[j].nc /\ PyEqArg(a[i].v, b[j].v)
-ArgsEq(a, b) == Len(a) = Len(b) /\ \A i \in 1..Len(a) : PyEqArg(a[i], b[i])
+\* Equality of stored arguments: python == AND the same types throughout (an int, the equal float and the equal bool
+\* are not interchangeable arguments: range() refuses a float bound, so in_range(1, 5) and in_range(1.0, 5) differ in
+\* behaviour).  Mapping arguments are matched by key equality (key types are immaterial to every callable); data-path
+\* arguments compare structurally (Build.tla / PathEq).  `loose` = TRUE is python == alone - the behaviour before
+\* the repair "fix: conditions with equal but differently typed arguments are not equal" (negative configuration).
+RECURSIVE EqTyped(_, _)
+EqTyped(a, b) ==
+  IF a.k \in {"dpath", "rdpath"} /\ b.k \in {"dpath", "rdpath"} THEN TRUE
+  ELSE /\ a.k = b.k
+       /\ CASE a.k \in {"list", "tuple"} -> Len(a.xs) = Len(b.xs) /\ \A i \in 1..Len(a.xs) : EqTyped(a.xs[i], b.xs[i])
+            [] a.k = "map" -> Len(a.xs) = Len(b.xs) /\
+                              \A i \in 1..Len(a.xs) : \E j \in 1..Len(b.xs) :
+                                  PyEq(a.xs[i][1], b.xs[j][1]) /\ EqTyped(a.xs[i][2], b.xs[j][2])
+            [] OTHER -> PyEq(a, b)
+PyEqArgG(a, b, loose) == IF a.k \in {"dpath", "rdpath"} /\ b.k \in {"dpath", "rdpath"} THEN TRUE
+                         ELSE IF loose THEN PyEq(a, b) ELSE EqTyped(a, b)
+PyEqArg(a, b) == PyEqArgG(a, b, FALSE)
+KwEqG(a, b, loose) == /\ Len(a) = Len(b)
+                      /\ \A i \in 1..Len(a) : \E j \in 1..Len(b) : a[i].nc = b[j].nc /\ PyEqArgG(a[i].v, b[j].v, loose)
+ArgsEqG(a, b, loose) == Len(a) = Len(b) /\ \A i \in 1..Len(a) : PyEqArgG(a[i], b[i], loose)
+KwEq(a, b) == KwEqG(a, b, FALSE)
+ArgsEq(a, b) == ArgsEqG(a, b, FALSE)
 
-RECURSIVE TermEq(_, _)
-TermEq(a, b) ==
+RECURSIVE TermEqG(_, _, _)
+TermEqG(a, b, loose) ==
   CASE a.t = "null" -> b.t = "null"
     [] a.t = "leaf" -> /\ b.t = "leaf" /\ a.datum = b.datum /\ a.pre = b.pre /\ a.fn = b.fn
-                       /\ ArgsEq(a.args, b.args) /\ KwEq(a.kw, b.kw)
+                       /\ ArgsEqG(a.args, b.args, loose) /\ KwEqG(a.kw, b.kw, loose)
     [] OTHER -> /\ b.t = a.t
-                /\ \/ TermEq(a.l, b.l) /\ TermEq(a.r, b.r)
-                   \/ TermEq(a.l, b.r) /\ TermEq(a.r, b.l)
+                /\ \/ TermEqG(a.l, b.l, loose) /\ TermEqG(a.r, b.r, loose)
+                   \/ TermEqG(a.l, b.r, loose) /\ TermEqG(a.r, b.l, loose)
+TermEq(a, b) == TermEqG(a, b, FALSE)
 PartEq(p, q, MolEqIgnoresKeyIndex) ==
   /\ p.pk = q.pk /\ TermEq(p.cond, q.cond) /\ PyEq(p.label, q.label)
   /\ (MolEqIgnoresKeyIndex \/ (TermEq(p.lcond, q.lcond) /\ TermEq(p.mcond, q.mcond)))
